@@ -17,7 +17,7 @@
 
 typedef struct {
 	int shard_i, shard_n;
-	long long only, resume;
+	long long only, resume, upto;
 	double deadline;          /* absolute, seconds since epoch; 0 = none */
 	const char *space;        /* which space to run (explorers hold several) */
 	const char *curfile;      /* shared page for the current case */
@@ -151,6 +151,7 @@ static void vf_init(int argc, char **argv)
 	memset(&VF, 0, sizeof VF);
 	VF.shard_n = 1;
 	VF.only = -1;
+	VF.upto = -1;
 	VF.index = -1;
 	VF.space = "";
 	for (i = 1; i < argc; ++i) {
@@ -158,6 +159,8 @@ static void vf_init(int argc, char **argv)
 			sscanf(argv[++i], "%d/%d", &VF.shard_i, &VF.shard_n);
 		} else if (!strcmp(argv[i], "--only") && i + 1 < argc) {
 			VF.only = atoll(argv[++i]);
+		} else if (!strcmp(argv[i], "--upto") && i + 1 < argc) {
+			VF.upto = atoll(argv[++i]);      /* replay of a shard's history up to and including this case */
 		} else if (!strcmp(argv[i], "--resume") && i + 1 < argc) {
 			VF.resume = atoll(argv[++i]);
 		} else if (!strcmp(argv[i], "--deadline") && i + 1 < argc) {
@@ -199,6 +202,7 @@ static int vf_case_pick(void)
 	++VF.index;
 	if (VF.stop) return 0;
 	if (VF.only >= 0) return VF.index == VF.only;
+	if (VF.upto >= 0 && VF.index > VF.upto) { VF.stop = 1; return 0; }
 	if (VF.index < VF.resume) return 0;
 	if (VF.index % VF.shard_n != VF.shard_i) return 0;
 	if (VF.deadline > 0 && (VF.evaluations & 63) == 0 && vf_now() > VF.deadline) {
